@@ -494,3 +494,47 @@ def resolve_word(eng, st, val, is_literal, defs):
     word = z3.If(neg, z3.If(h.dhas(d, tail), smt.VReal(-smt.get_r(h.dget(d, tail))), v),
                  z3.If(h.dhas(d, v), h.dget(d, v), v))
     return SV(z3.If(lit, smt.VReal(smt.float_of(s)), word), None)
+
+
+# ---- light-weight well-formedness (only the part of the schema a function needs: smaller VCs) -------------------
+@spec_function()
+def wf_labels(eng, st, tree, *labels):
+    """like wf_file / wf_node but loading only the schema axioms of the given tree labels (and of the base facts)"""
+    h0 = eng.entry_heap
+    want = [l.s.as_string() if hasattr(l, "s") else str(l) for l in labels]
+    key = "wf_axioms_raw_light"
+    have = st.ghost.get(key, set())
+    ax = None
+    for lab in want:
+        if lab in have:
+            continue
+        if ax is None:
+            ax = schema_axioms(h0, "raw")
+            sc_labels = list(dec_schema().keys())
+        if not have:
+            st.assume(ax[0], ax[1])
+        st.assume(ax[2 + sc_labels.index(lab)])
+        have = set(have) | {lab}
+    st.ghost[key] = have
+    ensure_lex(eng, st)
+    v = eng.as_val(st, tree)
+    return sv_bool(z3.And(is_ref(v.t), WFN(get_ref(v.t))))
+
+
+@spec_function()
+def table_head(eng, st, t):
+    """t is a `decay` tree as far as its mother is concerned: Tree('decay', [Tree('particle', [Token(str)]), ...])"""
+    h = st.heap
+    v = eng.as_val(st, t)
+    r = get_ref(v.t)
+    f = lambda name, x: h.get_field(x, name)
+    c = get_ref(f("children", r))
+    p = get_ref(h.lget(c, 0))
+    pc = get_ref(f("children", p))
+    tok = get_ref(h.lget(pc, 0))
+    T = class_id
+    return sv_bool(z3.And(is_ref(v.t), TYP(r) == T("Tree"), f("data", r) == strv("decay"),
+                          is_ref(f("children", r)), TYP(c) == T("list"), h.llen(c) >= 1,
+                          is_ref(h.lget(c, 0)), TYP(p) == T("Tree"), f("data", p) == strv("particle"),
+                          is_ref(f("children", p)), TYP(pc) == T("list"), h.llen(pc) == 1,
+                          is_ref(h.lget(pc, 0)), TYP(tok) == T("Token"), is_str(f("value", tok))))
